@@ -20,7 +20,7 @@
 (***************************************************************************)
 EXTENDS Integers, Sequences, FiniteSets, TLC, Json, IOUtils
 
-CONSTANTS Presets, ValidPresets, Shapes, Layouts, Locations, Kinds, Mode
+CONSTANTS Presets, ValidPresets, Shapes, Layouts, Locations, BatchLocations, Kinds, Mode
 
 VARIABLES case, out, l, viol, drift, taint, hist
 vars == <<case, out, l, viol, drift, taint, hist>>
@@ -34,8 +34,9 @@ SetOf(x) == { x[i] : i \in DOMAIN x }
 \* repositories by role: R1 = the work tree the agent runs in (or the first repository of a multi-repository
 \* workspace), R2 = a repository nested in R1 (layout "nested") or the second repository of the workspace
 \* (layout "multi"), R3 = an unrelated repository elsewhere on disk
-HasR1(lay) == lay \in {"single", "nested", "multi"}
-HasR2(lay) == lay \in {"nested", "multi"}
+\* ("nestedws": the workspace root is no repository; R1 lies in it and R2 is a repository nested inside R1)
+HasR1(lay) == lay \in {"single", "nested", "multi", "nestedws"}
+HasR2(lay) == lay \in {"nested", "multi", "nestedws"}
 \* the repository that contains the reported file ("none": no repository does)
 Containing(lay, loc) ==
   CASE loc \in {"in1rel", "in1abs", "missing", "dir", "binary"} -> IF HasR1(lay) THEN "R1" ELSE "none"
@@ -49,31 +50,44 @@ Containing(lay, loc) ==
 C20_ExitZero(o)  == o.done => (o.exit = 0 /\ ~o.timeout)
 C20_NoPanic(o)   == o.done => ~o.panic
 C20_Readable(o)  == o.done => o.readable
-C20_OnlyContaining(o) == o.done => (o.recorded \subseteq ({Containing(o.lay, o.loc)} \ {"none"}))
-PropertyNames == {"C20_ExitZero", "C20_NoPanic", "C20_Readable", "C20_OnlyContaining"}
+C20_OnlyContaining(o) ==
+  o.done => /\ o.recorded \subseteq ({Containing(o.lay, o.loc)} \ {"none"})
+            /\ (o.batch => o.recorded2 \subseteq ({Containing(o.lay, o.loc2)} \ {"none"}))
+\* a report that lists several files treats each file as it would treat it alone: where a file's attribution
+\* lands does not depend on which other files are reported with it, or in which order
+C20_BatchIndependent(o) == (o.done /\ o.batch) => (o.recorded = o.alone /\ o.recorded2 = o.alone2)
+PropertyNames == {"C20_ExitZero", "C20_NoPanic", "C20_Readable", "C20_OnlyContaining", "C20_BatchIndependent"}
 Holds(p, o) == CASE p = "C20_ExitZero" -> C20_ExitZero(o) [] p = "C20_NoPanic" -> C20_NoPanic(o)
-                 [] p = "C20_Readable" -> C20_Readable(o) [] OTHER -> C20_OnlyContaining(o)
+                 [] p = "C20_Readable" -> C20_Readable(o) [] p = "C20_BatchIndependent" -> C20_BatchIndependent(o)
+                 [] OTHER -> C20_OnlyContaining(o)
 
 \* ---- the design: where a well-formed report ends up
 ExpectedRecorded(c) ==
   IF c.shape # "valid" THEN {}
   ELSE CASE c.loc \in {"in1rel", "in1abs"} -> IF HasR1(c.lay) THEN {"R1"} ELSE {}
-         [] c.loc = "in2" -> IF c.lay = "multi" THEN {"R2"} ELSE IF c.lay = "nested" THEN {}   \* a file of a nested repository is skipped
+         [] c.loc = "in2" -> IF c.lay \in {"multi", "nestedws"} THEN {"R2"} ELSE IF c.lay = "nested" THEN {}   \* a file of a nested repository is skipped
                              ELSE IF HasR1(c.lay) THEN {"R1"} ELSE {}
          [] c.loc = "otherrepo" -> IF c.lay \in {"single", "nested"} THEN {"R3"} ELSE {}   \* cross-repository reports are followed
          [] OTHER -> {}
 NoOut == [done |-> FALSE]
-NoCase == [preset |-> "-", shape |-> "-", lay |-> "-", loc |-> "-", kind |-> "-"]
+NoCase == [preset |-> "-", shape |-> "-", lay |-> "-", loc |-> "-", kind |-> "-", loc2 |-> "-"]
 ModelOut(c) == [done |-> TRUE, exit |-> 0, timeout |-> FALSE, panic |-> FALSE, readable |-> TRUE,
-                recorded |-> ExpectedRecorded(c), lay |-> c.lay, loc |-> c.loc]
+                recorded |-> ExpectedRecorded(c), lay |-> c.lay, loc |-> c.loc,
+                batch |-> c.loc2 # "-", loc2 |-> c.loc2,
+                recorded2 |-> IF c.loc2 = "-" THEN {} ELSE ExpectedRecorded([c EXCEPT !.loc = c.loc2]),
+                alone |-> ExpectedRecorded(c), alone2 |-> IF c.loc2 = "-" THEN {} ELSE ExpectedRecorded([c EXCEPT !.loc = c.loc2])]
 
 Cases ==
-  { [preset |-> p, shape |-> s, lay |-> y, loc |-> "nofiles", kind |-> "ai"] : p \in Presets, s \in Shapes \ {"valid"}, y \in Layouts }
-  \cup { [preset |-> p, shape |-> "valid", lay |-> y, loc |-> c, kind |-> k] : p \in ValidPresets, y \in Layouts, c \in Locations, k \in Kinds }
+  { [preset |-> p, shape |-> s, lay |-> y, loc |-> "nofiles", kind |-> "ai", loc2 |-> "-"] : p \in Presets, s \in Shapes \ {"valid"}, y \in Layouts }
+  \cup { [preset |-> p, shape |-> "valid", lay |-> y, loc |-> c, kind |-> k, loc2 |-> "-"] : p \in ValidPresets, y \in Layouts, c \in Locations, k \in Kinds }
+  \* one report listing two files (ordered): agent-v1 is the schema that carries a list
+  \cup { r \in { [preset |-> "agent-v1", shape |-> "valid", lay |-> y, loc |-> c, kind |-> k, loc2 |-> d] :
+                    y \in Layouts, c \in BatchLocations, d \in BatchLocations, k \in Kinds } : r.loc # r.loc2 }
 
 Init == case = NoCase /\ out = NoOut /\ l = 1 /\ viol = {} /\ drift = {} /\ taint = {} /\ hist = <<>>
 GenCase(c) == /\ hist = <<>> /\ case' = c /\ out' = ModelOut(c)
-              /\ hist' = <<[a |-> "Hook", preset |-> c.preset, shape |-> c.shape, lay |-> c.lay, loc |-> c.loc, kind |-> c.kind]>>
+              /\ hist' = <<[a |-> "Hook", preset |-> c.preset, shape |-> c.shape, lay |-> c.lay, loc |-> c.loc, kind |-> c.kind,
+                             loc2 |-> c.loc2]>>
               /\ UNCHANGED <<l, viol, drift, taint>>
 Next == Gen /\ \E c \in Cases : GenCase(c)
 Spec == Init /\ [][Next]_vars
@@ -88,9 +102,11 @@ TrReset ==
   /\ case' = NoCase /\ out' = NoOut /\ viol' = {} /\ drift' = {} /\ taint' = {} /\ hist' = hist /\ l' = l + 1
 TrHook ==
   /\ IsEv("Hook")
-  /\ LET c == [preset |-> Ev.preset, shape |-> Ev.shape, lay |-> Ev.lay, loc |-> Ev.loc, kind |-> Ev.kind]
+  /\ LET c == [preset |-> Ev.preset, shape |-> Ev.shape, lay |-> Ev.lay, loc |-> Ev.loc, kind |-> Ev.kind, loc2 |-> Ev.loc2]
          o == [done |-> TRUE, exit |-> Ev.obs.exit, timeout |-> Ev.obs.timeout, panic |-> Ev.obs.panic,
-               readable |-> Ev.obs.readable, recorded |-> SetOf(Ev.obs.recorded), lay |-> c.lay, loc |-> c.loc]
+               readable |-> Ev.obs.readable, recorded |-> SetOf(Ev.obs.recorded), lay |-> c.lay, loc |-> c.loc,
+               batch |-> c.loc2 # "-", loc2 |-> c.loc2, recorded2 |-> SetOf(Ev.obs.recorded2),
+               alone |-> SetOf(Ev.obs.alone), alone2 |-> SetOf(Ev.obs.alone2)]
      IN /\ case' = c /\ out' = o /\ taint' = taint
         /\ drift' = drift \cup (IF o.recorded # ModelOut(c).recorded THEN {<<l, "recorded">>} ELSE {})
   /\ viol' = viol \cup { <<l, p>> : p \in { q \in PropertyNames : ~Holds(q, out') } }
